@@ -360,10 +360,19 @@ func moveOutArrayDir(w *bytes.Buffer, value json.RawMessage,
 	if _, err := w.WriteString("[\n"); err != nil {
 		return err
 	}
-	p := syntax.StructMember{
-		Tname: t.Elem.TypeId(),
+	// The elements of an array of more than one dimension are arrays.
+	elem := t.Elem
+	if t.Dim > 1 {
+		id := t.TypeId()
+		id.ArrayDim--
+		if et := lookup.Get(id); et != nil {
+			elem = et
+		}
 	}
-	p.CacheIsFile(t.Elem)
+	p := syntax.StructMember{
+		Tname: elem.TypeId(),
+	}
+	p.CacheIsFile(elem)
 	width := util.WidthForInt(len(valueArr))
 	var errs syntax.ErrorList
 	for i, v := range valueArr {
@@ -376,7 +385,7 @@ func moveOutArrayDir(w *bytes.Buffer, value json.RawMessage,
 		p.Id = k
 		if err := moveOutFiles(w,
 			&p,
-			t.Elem.IsFile(),
+			elem.IsFile(),
 			v,
 			lookup,
 			pipestancePath,
